@@ -57,4 +57,10 @@ Definition xserve (w : xworld) (c : xcall) (dur over : N) : xres :=
     end
   end.
 
+(* a signal handler of the calling process (installed without SA_RESTART) interrupts a blocking waitpid: the call
+   fails with EINTR after dur, nothing about the child changes *)
+Definition EINTR : N := 4.
+Definition xinterrupt (w : xworld) (dur : N) : xres :=
+  XRes {| xbase := padvance (xbase w) (pnow (xbase w) + dur); xstopped := xstopped w; xseen := xseen w |} (RErrno EINTR).
+
 Definition xinit (w : pworld) : xworld := {| xbase := w; xstopped := None; xseen := false |}.
